@@ -266,9 +266,12 @@ func sortJSONObject(input gjson.Result, output []byte) []byte {
 		return true // keep iterating
 	})
 
-	// Using slices.SortFunc here instead of sort.Slice avoids
-	// heap escapes due to reflection.
-	slices.SortFunc(entries, func(a, b entry) int {
+	// Using slices.SortStableFunc here instead of sort.Slice avoids
+	// heap escapes due to reflection. The sort has to be stable: members
+	// that share a key must keep their input order, or readers that take
+	// the last copy of a repeated member (encoding/json) and readers of
+	// the sorted form disagree on which copy that is.
+	slices.SortStableFunc(entries, func(a, b entry) int {
 		return strings.Compare(a.key, b.key)
 	})
 
